@@ -397,6 +397,12 @@ def build_pool(cs, ctx):
         if dt == "f8":
             tags.add("f8vec")
         pool.add("vec", view, guards, f"vec[{kind},{dt},{lay}]", tags)
+        if cs.flip(f"v{j}.column", 15):
+            # the same memory seen as one column [N,1] (an accepted layout of
+            # the metrics functions), as a further pool object
+            pool.add("vec", view[:, None], guards,
+                     f"vec[{kind},{dt},{lay},column]",
+                     {"vecN", kind, dt, lay, "column"})
     x = series_values("unif")
     view, guards = pool.carve(x, "contig", "vunif")
     pool.add("vec", view, guards, "vec[unif,f8,contig]",
@@ -467,7 +473,7 @@ def build_pool(cs, ctx):
             index = idx_daily.tz_localize("UTC")
         else:
             index = [f"r{i}" for i in range(N)]
-        se = pd.Series(np.array(src.obj, copy=True), index=index,
+        se = pd.Series(np.array(src.obj, copy=True).reshape(-1), index=index,
                        name=f"ser{j}")
         pool.add("series", se, None, f"series[{ik},{se.dtype}]",
                  {ik} | ({"f8ser"} if se.dtype == np.float64 else set()))
